@@ -47,6 +47,8 @@ CASES = [
  ('c04-migrate-no-running-guard', 'C04', MG, '        Self::check_running_tasks(cluster)?;\n\n        let migration_slots = Self::remove_slots_from_src(cluster, new_epoch);', '        let migration_slots = Self::remove_slots_from_src(cluster, new_epoch);', 'violation'),
  ('c04-migrate-no-set-epoch', 'C04', MG, '        Self::assign_dst_slots(cluster, migration_slots.clone());\n        cluster.set_epoch(new_epoch);\n\n        Self::print_migration_slot(cluster, &migration_slots);\n        Ok(())\n    }\n\n    fn remove_slots_from_src(', '        Self::assign_dst_slots(cluster, migration_slots.clone());\n\n        Self::print_migration_slot(cluster, &migration_slots);\n        Ok(())\n    }\n\n    fn remove_slots_from_src(', 'violation'),
  ('c04-running-check-inverted', 'C04', MG, '.any(|chunk| chunk.migrating_slots.iter().any(|slots| !slots.is_empty()));\n        if running_migration {', '.any(|chunk| chunk.migrating_slots.iter().any(|slots| slots.is_empty()));\n        if running_migration {', 'violation'),
+ ('c04-add-cluster-stale-epoch', 'C04', U, '        let epoch = self.store.bump_global_epoch();\n\n        let cluster_store = ClusterStore {\n            epoch,', '        let epoch = self.store.bump_global_epoch() - 1;\n\n        let cluster_store = ClusterStore {\n            epoch,', 'violation'),
+ ('c04-add-cluster-tags-before-refusal', 'C04', U, '        if node_num % 4 != 0 {\n            return Err(MetaStoreError::InvalidNodeNum);\n        }\n        let proxy_num', '        self.store.bump_global_epoch();\n        if node_num % 4 != 0 {\n            return Err(MetaStoreError::InvalidNodeNum);\n        }\n        let proxy_num', 'violation'),
  # ---- C01
  ('c01-compact-adjacent', 'C01', CL, 'if s.end() + 1 >= e.start() {', 'if s.end() >= e.start() {', 'violation'),
  ('c01-compact-truncate', 'C01', CL, 'self.0.truncate(a + 1);', 'self.0.truncate(a);', 'violation'),
